@@ -89,34 +89,31 @@ theorem bag_instanceAttrs (p q : Cell → Bool) : BagFn (containsInstanceAttrs p
 
 def strEqTrue (x : Cell) : Bool := match x.strEq with | .ok b => b | .raises _ => false
 
-/-- `_is_string`'s test of the first five values is subsumed by its full scan (under H_str) -/
-theorem isString_core (l : List Cell) (w : ∀ x ∈ l, StrWF x) :
-    (if !((l.take 5).all (·.isStr)) then false else l.all strEqTrue) = l.all strEqTrue := by
-  by_cases h5 : (l.take 5).all (·.isStr) = true
-  · simp [h5]
-  · have h' : (l.take 5).all (·.isStr) = false := by simpa using h5
+/-- `_is_string`: "every value is a str, and str(v) == v everywhere" is `all` of one cell predicate -/
+theorem isString_core (l : List Cell) :
+    (if !(l.all (·.isStr)) then false else l.all strEqTrue) = l.all (fun x => x.isStr && strEqTrue x) := by
+  by_cases h : l.all (·.isStr) = true
+  · simp only [h, Bool.not_true, Bool.false_eq_true, if_false]
+    rw [List.all_eq_true] at h
+    induction l with
+    | nil => rfl
+    | cons a l ih =>
+      simp only [List.all_cons]
+      rw [ih (fun x hx => h x (List.mem_cons_of_mem _ hx)), h a List.mem_cons_self]
+      simp
+  · have h' : l.all (·.isStr) = false := by simpa using h
     simp only [h', Bool.not_false, if_true]
     symm
     rw [List.all_eq_false] at h' ⊢
     obtain ⟨x, hx, hpx⟩ := h'
-    have hm := List.mem_of_mem_take hx
-    refine ⟨x, hm, ?_⟩
-    intro hs
-    apply hpx
-    apply w x hm
-    simp only [strEqTrue] at hs
-    cases he : x.strEq with
-    | ok b => rw [he] at hs; simp at hs; rw [hs]
-    | raises c => rw [he] at hs; cases hs
+    exact ⟨x, hx, by simp [hpx]⟩
 
 theorem bag_isString : BagFn isString := by
   apply bag_handleNulls
-  intro c c' h w
-  have e1 := isString_core c.cells w
-  have e2 := isString_core c'.cells (colWF_sameBag h w)
-  show (if !((c.cells.take 5).all (·.isStr)) then false else c.cells.all strEqTrue)
-     = (if !((c'.cells.take 5).all (·.isStr)) then false else c'.cells.all strEqTrue)
-  rw [e1, e2]
+  intro c c' h _
+  show (if !(c.cells.all (·.isStr)) then false else c.cells.all strEqTrue)
+     = (if !(c'.cells.all (·.isStr)) then false else c'.cells.all strEqTrue)
+  rw [isString_core, isString_core]
   exact perm_all _ h.perm
 
 theorem bag_stringContains : BagFn stringContains := by
@@ -223,14 +220,14 @@ theorem rep_handleNulls {f : Column → Bool} (hf : RepFn f) : RepFn (handleNull
 
 theorem rep_isString : RepFn isString := by
   refine ⟨bag_isString, ?_⟩
-  have core : RepFn (fun c => if !((c.cells.take 5).all (·.isStr)) then false else c.cells.all strEqTrue) := by
-    refine ⟨?_, fun c k w => ?_⟩
-    · intro c c' h w
+  have core : RepFn (fun c => if !(c.cells.all (·.isStr)) then false else c.cells.all strEqTrue) := by
+    refine ⟨?_, fun c k _ => ?_⟩
+    · intro c c' h _
       simp only []
-      rw [isString_core c.cells w, isString_core c'.cells (colWF_sameBag h w)]
+      rw [isString_core, isString_core]
       exact perm_all _ h.perm
     · simp only []
-      rw [isString_core _ (colWF_repeat k w), isString_core _ w]
+      rw [isString_core, isString_core]
       exact all_replicate _ c.cells k
   exact (rep_handleNulls core).2
 
